@@ -149,6 +149,10 @@ func edgeValues() []value {
 	for t := range sbom.Edge_Type_name {
 		vs = append(vs, value{Label: fmt.Sprintf("type-%d", t), Msg: &sbom.Edge{From: "f", Type: sbom.Edge_Type(t), To: []string{"t"}}, PermOf: -1})
 	}
+	// numbers outside the declared enum (an open proto3 enum: a document written by a newer schema), several of them
+	for _, t := range []int32{-1, 45, 46, 99, 1000, 1001, 1 << 20} {
+		vs = append(vs, value{Label: fmt.Sprintf("type-undeclared-%d", t), Msg: &sbom.Edge{From: "f", Type: sbom.Edge_Type(t), To: []string{"t"}}, PermOf: -1})
+	}
 	vs = append(vs,
 		value{Label: "crafted/plus/1", Msg: &sbom.Edge{From: "a", Type: sbom.Edge_contains, To: []string{"b+c"}}, PermOf: -1, Crafted: "separator-injection"},
 		value{Label: "crafted/plus/2", Msg: &sbom.Edge{From: "a", Type: sbom.Edge_contains, To: []string{"b", "c"}}, PermOf: -1, Crafted: "separator-injection"},
